@@ -312,6 +312,81 @@ class HSink(object):
         self.nwrites += 1
 
 
+class HAcc(object):
+    """a local byte string that is only ever appended to, tracked through a GHOST DECODER instead of its bytes: the state
+    CPython's lnotab reader (dis.findlinestarts, <= 3.9) would be in after reading what has been appended so far:
+        addr, line      running address / line
+        has_last, last  the line of the last (address, line) pair it yielded
+        nyield          how many pairs it yielded
+    Each appended (address increment, line increment) pair advances that state; when the reader would yield, the
+    contract's `on_yield` obligation is proved (which table entry the yielded pair must be)."""
+    def __init__(self, name, first, signed, spec):
+        self.name = name
+        self.addr = z3.IntVal(0)
+        self.line = _ie(first)
+        self.has_last = z3.BoolVal(False)
+        self.last = z3.IntVal(0)
+        self.nyield = z3.IntVal(0)
+        self.npairs = z3.IntVal(0)
+        self.signed = signed
+        self.spec = spec
+        self.half = None
+
+    def put(self, eng, codes, env_fn, lineno):
+        for c in codes:
+            c = _ie(c)
+            if self.half is None:
+                self.half = c
+                continue
+            a, b = self.half, c
+            self.half = None
+            eng.prove(z3.And(a >= 0, a <= 255, b >= 0, b <= 255), "acc-byte-range", lineno)
+            inc = z3.If(b >= 128, b - 256, b) if self.signed else b
+            yields = z3.And(a != 0, z3.Or(z3.Not(self.has_last), self.line != self.last))
+            if self.spec.on_yield is not None:
+                env = dict(env_fn())
+                env.update(addr=SInt(self.addr), line=SInt(self.line), nyield=SInt(self.nyield))
+                goal = call_by_names(self.spec.on_yield, env)
+                eng.prove(z3.Implies(yields, _be(goal)), "acc-yield", lineno)
+            self.nyield = z3.simplify(z3.If(yields, self.nyield + 1, self.nyield))
+            self.last = z3.simplify(z3.If(yields, self.line, self.last))
+            self.has_last = z3.simplify(z3.Or(self.has_last, yields))
+            self.addr = z3.simplify(self.addr + a)
+            self.line = z3.simplify(self.line + inc)
+            self.npairs = z3.simplify(self.npairs + 1)
+
+    # views for contracts
+    @property
+    def A(self):
+        return SInt(self.addr)
+
+    @property
+    def L(self):
+        return SInt(self.line)
+
+    @property
+    def N(self):
+        return SInt(self.nyield)
+
+    @property
+    def HL(self):
+        return SBool(self.has_last)
+
+    @property
+    def LAST(self):
+        return SInt(self.last)
+
+    @property
+    def pending(self):
+        """would the reader yield (addr, line) at the end of the table?"""
+        return SBool(z3.Or(z3.Not(self.has_last), self.line != self.last))
+
+
+class AccSpec(object):
+    def __init__(self, first, signed, on_yield=None):
+        self.first, self.signed, self.on_yield = first, signed, on_yield
+
+
 class HMap(object):
     """dict int -> int given as parameter (read-only): has/val arrays"""
     def __init__(self, name):
@@ -460,7 +535,8 @@ class Contract(object):
                  yield_count=None, yield_at=None, yield_post=None, loops=None, result=None, effect=None,
                  inline=False, opaque=(), note="", exc_ensures=None, modifies=(),
                  yield_seq=0, yield_encode=None, yields_eq=None, native_yields=None, native_post=None, findings=(),
-                 name=None, when=None, examples=None, external_args=(), result_pytype=None, externals=(), unfold_depth=None, no_native_replay=False, yield_fresh=None, yield_post_call=None, native_check=None):
+                 name=None, when=None, examples=None, external_args=(), result_pytype=None, externals=(), unfold_depth=None, no_native_replay=False, yield_fresh=None, yield_post_call=None, native_check=None, accumulators=None):
+        self.accumulators = accumulators or {}   # {local name: AccSpec}: byte strings tracked through a ghost decoder (HAcc)
         self.native_check = native_check   # (config, inputs) -> [violated labels]: custom native replay of the real function
         self.target = target
         self.modname, self.qualname = target.split(":")
